@@ -821,7 +821,7 @@ func c19Malformed(c *Ctx) {
 // c19SetupErrors: over-long short names, defaults on booleans, duplicate names (also created by namespaces).
 func c19SetupErrors(c *Ctx) {
 	r := c.R
-	kind := []string{"short-too-long-ascii", "short-too-long-multibyte", "default-on-bool", "dup-short", "dup-long", "dup-long-via-namespace", "dup-in-nested-group", "dup-short-multibyte", "no-duplicate-across-commands", "dup-random-nesting", "dup-random-nesting", "no-dup-random-nesting", "same-untagged-struct-twice", "same-untagged-struct-twice-no-clash", "same-struct-two-groups"}[(c.K/5)%15]
+	kind := []string{"short-too-long-ascii", "short-too-long-multibyte", "default-on-bool", "dup-short", "dup-long", "dup-long-via-namespace", "dup-in-nested-group", "dup-short-multibyte", "no-duplicate-across-commands", "dup-random-nesting", "dup-random-nesting", "no-dup-random-nesting", "same-untagged-struct-twice", "same-untagged-struct-twice-no-clash", "same-struct-two-groups", "same-struct-inline-then-group"}[(c.K/5)%16]
 	via := []string{"NewParser", "AddGroup", "AddCommand"}[(c.K/75)%3]
 	str := reflect.TypeOf("")
 	mk := func(fs ...reflect.StructField) reflect.Type { return reflect.StructOf(fs) }
@@ -833,6 +833,7 @@ func c19SetupErrors(c *Ctx) {
 	wantErr := true
 	wantOptions := -1
 	wantFind := ""
+	wantCommand := ""
 	switch kind {
 	case "short-too-long-ascii":
 		rt = mk(fld("A", str, `short:"ab" long:"alpha"`))
@@ -948,6 +949,18 @@ func c19SetupErrors(c *Ctx) {
 		rt = mk(fld("A", str, `long:"alpha"`), fld("Primary", ep, firstTag), fld("Replica", reflect.PtrTo(ep), `group:"Replica" namespace:"r"`))
 		wantErr = false
 		wantFind = "r.host"
+	case "same-struct-inline-then-group":
+		// a struct type that was first read inline (untagged field) and is then used, through a pointer, for a
+		// tagged group or command: the second use is a declaration of its own
+		ep := mk(fld("Host", str, `long:"host"`))
+		secondTag := []string{`group:"Replica" namespace:"r"`, `group:"Replica" namespace:"r"`, `command:"replica"`}[r.Intn(3)]
+		rt = mk(fld("A", str, `long:"alpha"`), fld("Primary", ep, ``), fld("Replica", reflect.PtrTo(ep), secondTag))
+		wantErr = false
+		if strings.HasPrefix(secondTag, "group") {
+			wantFind = "r.host"
+		} else {
+			wantCommand = "replica"
+		}
 	case "no-duplicate-across-commands":
 		cmd := mk(fld("A", str, `short:"v" long:"verbose"`))
 		rt = mk(fld("B", str, `short:"v" long:"verbose"`), fld("C", cmd, `command:"sub"`))
@@ -963,6 +976,7 @@ func c19SetupErrors(c *Ctx) {
 	var err error
 	gotOptions := -1
 	findMissing := false
+	leftBehind := false
 	completionMode := via == "NewParser" && wantErr && c.K%4 == 1 && c.W.Tier != "race"
 	handlerCalls := 0
 	pi := safely(func() {
@@ -984,12 +998,20 @@ func c19SetupErrors(c *Ctx) {
 			if wantFind != "" && err == nil && p.FindOptionByLongName(wantFind) == nil {
 				findMissing = true
 			}
+			if wantCommand != "" && err == nil && (p.Find(wantCommand) == nil || p.Find(wantCommand).FindOptionByLongName("host") == nil) {
+				findMissing = true
+				wantFind = "host of command " + wantCommand
+			}
 		case "AddGroup":
 			p := flags.NewNamedParser("app", flags.None)
 			_, err = p.AddGroup("G", "", reflect.New(rt).Interface())
 		case "AddCommand":
 			p := flags.NewNamedParser("app", flags.None)
 			_, err = p.AddCommand("c", "", "", reflect.New(rt).Interface())
+			if err != nil && (p.Find("c") != nil || len(p.Commands()) != 0) {
+				// (a plug-in host logs the error and carries on with the other commands)
+				leftBehind = true
+			}
 		}
 	})
 	c.Count("declarations_scanned", 1)
@@ -1000,6 +1022,10 @@ func c19SetupErrors(c *Ctx) {
 	fe, _ := err.(*flags.Error)
 	if handlerCalls > 0 {
 		c.Violate("setup:"+kind+":completed-from-a-refused-declaration", "%s: the completion handler was called %d times although the declaration must be refused (error returned: %v)", kind, handlerCalls, err)
+		return
+	}
+	if leftBehind {
+		c.Violate("setup:"+kind+":rejected-command-stays-registered", "%s: AddCommand returned %v, but the rejected command is part of the model (Find / Commands() return it)", kind, err)
 		return
 	}
 	if findMissing {
